@@ -22,6 +22,74 @@ def lemma_a_roundtrip(ns, c):
         yield 'returns_' + nm, Eq(c2[i], c[i])
 
 
+def lemma_invert_involution(module):
+    """cell_invert(cell_invert(c)) == c, from the contract of cell_invert applied twice.  The two results are fresh
+    cells constrained only by the (proved) postcondition of cell_invert.  The algebra is done by the micro-lemmas of
+    checks/algebra.py (each proved once over fresh reals, instantiated here): closed form of sqrt(D*), V*.V = 1,
+    a** = a, cos(alpha**) D = cos(alpha) D, cancellation, and injectivity of cos on [0,180] for the angles."""
+    from . import algebra as A
+
+    def body(ns, c):
+        from pyvc.engine import REGISTRY
+        from contracts.tools_laue import fresh_cell, native_fn, num_args
+        k = REGISTRY[(module, 'cell_invert')]
+        cx = T.ctx()
+        f = native_fn(module, 'cell_invert')
+        na = num_args([c])
+        a, b, cc = c[0], c[1], c[2]
+        co = [cosd(c[3]), cosd(c[4]), cosd(c[5])]
+        si = [sind(c[3]), sind(c[4]), sind(c[5])]
+        V = Vspec(c)                      # introduces sqrt(D) before the fresh cells: they are the newer symbols
+        D = gram_D(c)
+        abc = a * b * cc
+        yield 'volume_positive', V > 0
+        yield 'volume_squared', Eq(V * V, a * b * cc * a * b * cc * D)
+        for i in range(3):
+            yield 'sin_squared_%d' % i, Eq(si[i] * si[i], 1 - co[i] * co[i])
+        cs = fresh_cell('cs', lambda env: f(*na(env)))
+        from contracts.tools_laue import cell_invert_core
+        for nm, cond in cell_invert_core(k, c, cs):
+            cx.assume(cond)               # postcondition of cell_invert(c): only clauses proved for the real function
+        Cs = [cosd(cs[3]), cosd(cs[4]), cosd(cs[5])]
+        Ss = [sind(cs[3]), sind(cs[4]), sind(cs[5])]
+        # the reciprocal cell is a valid cell: cell_invert may be applied to it
+        Ds = gram_D(cs)
+        p3 = si[0] * si[1] * si[2]
+        yield from A.use('gram_star', A.L_gram_star, Cs[0], Cs[1], Cs[2], co[0], co[1], co[2], si[0], si[1], si[2])
+        yield 'reciprocal_gram_closed_form', Eq(Ds * p3 * p3, D * D)
+        yield 'reciprocal_gram_positive', Ds > 0
+        yield 'reciprocal_cell_is_valid', valid_cell(cs)
+        Vs = Vspec(cs)
+        rs = T.sqrt(Ds)
+        c2 = fresh_cell('c2', lambda env: f(f(*na(env))))
+        for nm, cond in cell_invert_core(k, cs, c2):
+            cx.assume(cond)               # postcondition of cell_invert(cs)
+        yield from A.use('sqrt_closed', A.L_sqrt_closed, rs, Ds, p3, D)
+        yield from A.use('recip_volume', A.L_recip_volume, Vs, cs[0], cs[1], cs[2], rs, V, a, b, cc, si[0], si[1], si[2], D)
+        # lengths: x** V* = y* z* sin(x-angle*)
+        perm = [(0, 1, 2), (1, 0, 2), (2, 0, 1)]
+        lens = [a, b, cc]
+        for (i, j, k_), nm in zip(perm, 'abc'):
+            yield from A.use('length_back_' + nm, A.L_length_back, c2[i], Vs, cs[j], cs[k_], Ss[i], V,
+                             lens[i], lens[j], lens[k_], si[j], si[k_])
+            yield 'returns_' + nm, Eq(c2[i], lens[i])
+        for i, nm in ((0, 'alpha'), (1, 'beta'), (2, 'gamma')):
+            j, k_ = (i + 1) % 3, (i + 2) % 3
+            x = cosd(c2[3 + i])
+            R0 = Cs[j] * Cs[k_] - Cs[i]
+            ni, nj, nk = co[j] * co[k_] - co[i], co[i] * co[k_] - co[j], co[i] * co[j] - co[k_]
+            N = nj * nk - ni * si[i] * si[i]
+            Q = R0 * si[i] * si[i] * si[j] * si[k_]
+            yield from A.use('scale_cos_' + nm, A.L_scale_cos, x, Ss[j], Ss[k_], R0, abc, si[i], si[j], si[k_], V)
+            yield from A.use('recip_cos_products_' + nm, A.L_recip_cos_products, Cs[i], Cs[j], Cs[k_], si[i], si[j], si[k_], ni, nj, nk)
+            yield from A.use('gram_identity_' + nm, A.L_gram_identity, co[i], co[j], co[k_], si[i], D)
+            yield from A.use('cancel_cos_' + nm, A.L_cancel_cos, x, co[i], V, abc, D, Q, N)
+            yield 'cos_' + nm, Eq(x, co[i])
+            axiom_cos_injective_deg(c2[3 + i], c[3 + i])
+            yield 'returns_' + nm, Eq(c2[3 + i], c[3 + i])
+    return body
+
+
 def _close(c1, c2, tol=1e-7):
     return all(abs(x - y) <= tol * (1 + abs(y)) for x, y in zip(c1, c2))
 
@@ -53,11 +121,13 @@ def bounded_invert_involution(module):
 
 
 def units(tier):
-    us = []
+    from . import algebra as A
+    us = [A.unit(n_, f_, k_) for n_, f_, k_ in A.C01_LEMMAS]
     for m in ('tools', 'laue'):
         for f in FUNCS:
             us.append(FuncUnit(m, f))
         us.append(LemmaUnit('a_to_cell_inverts_form_a_mat', m, [('c', Cell())], _req_cell, lemma_a_roundtrip))
+        us.append(LemmaUnit('cell_invert_is_involution', m, [('c', Cell())], _req_cell, lemma_invert_involution(m)))
         us.append(BoundedUnit(m + '.b_to_cell_inverts_form_b_mat', bounded_b_roundtrip(m), 300, 20000,
                               'b_to_cell(form_b_mat(c)) == c within 1e-7 on random valid cells (Gram det >= 0.02)'))
         us.append(BoundedUnit(m + '.cell_invert_is_involution', bounded_invert_involution(m), 300, 20000,
@@ -66,5 +136,9 @@ def units(tier):
 
 
 def main(tier, seed, write_baseline=False):
-    return Rn.run_property('C01', units(tier), tier, seed, level='proof', assumptions=COMMON, trusted=TRUSTED,
+    return Rn.run_property('C01', units(tier), tier, seed, level='proof',
+                           assumptions=COMMON + ['lemma cell_invert_is_involution: the two results are fresh cells constrained only by the core clauses '
+                                                 'of cell_invert\'s postcondition (proved for the real function in this check); algebraic micro-lemmas '
+                                                 'are proved over fresh reals and instantiated (premises re-proved at every use site)'],
+                           trusted=TRUSTED,
                            write_baseline=write_baseline)
